@@ -619,6 +619,12 @@ struct W {
 				locs.push_back("/" + str(k));
 		auto loc = [&]() { return locs.empty() || c.coin(15) ? std::string("/missing") : locs[c.pickn(locs.size())]; };
 		std::string newloc = is_obj ? "/p" + str(c.pickn(3)) : "/-";
+		if (c.coin(25))
+		{
+			// a target that cannot be set (missing parent, scalar parent, index past the end): move/copy/add must fail cleanly
+			static const char *bad[] = {"/no/such/parent", "/p0/x/y", "/99", "/-/x"};
+			newloc = bad[c.pickn(4)];
+		}
 		std::string text = "[";
 		size_t nops = 1 + c.pickn(3);
 		for (size_t k = 0; k < nops; k++)
